@@ -2,11 +2,13 @@
 
 spec/Lock.tla with the map of per-key queue objects (`qmap`): NoResidue says a key nobody holds or waits for has
 no queue object.  TLC checks it exhaustively for the strict design (the last caller leaving a queue drops the map
-entry) and finds the counterexample for the as-built variant "QueuesNeverPruned".  Binding to
+entry; the TTL watchdog goroutine of a grant - with its timer and caller struct - ends when the grant ends:
+WatchdogOfGrant, NoWatchdogResidue) and finds the counterexample for the as-built variant "QueuesNeverPruned".  Binding to
 app/core/hydra/lock/lock.go: the same logs as C14 (TLC paths stepped through the real lock with a point-of-rest
 line after every step, free-running stress, a run over many distinct keys, gateway runs) where every rest line
-carries the set of keys that have a queue object (verif-only accessor VerifQueueKeys reading the real sync.Map);
-Trace_Lock with CHECK_QMAP=1 compares it with the spec's qmap.  A run that is a behaviour of the as-built variant
+carries the set of keys that have a queue object (verif-only accessor VerifQueueKeys reading the real sync.Map) and
+the set of grants whose watchdog goroutine is still alive (start / exit trace events + goroutine wait states);
+Trace_Lock with CHECK_QMAP=1 compares both with the spec's qmap / wd.  A run that is a behaviour of the as-built variant
 but not of the strict design is the known finding D_C28_QueuesNeverPruned; a run neither explains is a violation.
 (The treasure guard keeps no per-key map - one guard object lives inside each treasure - so its bookkeeping is
 the `waitForUnlock` slice checked by C15's queue comparison; nothing to prune there.)
@@ -28,7 +30,7 @@ def run(ctx):
     ]
     binary = ctx.go_build("lock")
     ex = ThreadPoolExecutor(max_workers=4)
-    inv = "INVARIANTS TypeOK NoResidue QueuePresent QueueConsistent\n"
+    inv = "INVARIANTS TypeOK NoResidue QueuePresent QueueConsistent WatchdogOfGrant\nPROPERTIES NoWatchdogResidue\n"
     f1 = ex.submit(ctx.tlc, "MC_Lock", cfg_text=lc.mc_cfg(2, 2, 2, None, inv), name="mc-2p2k", workers=2, timeout=6000)
     f2 = ex.submit(ctx.tlc, "MC_Lock", cfg_text=lc.mc_cfg(3, 2 if thorough else 1, 2, None, inv), name="mc-3p", workers=8 if thorough else 4, timeout=12000,
                    heap="8g", coverage=thorough)
